@@ -485,6 +485,11 @@ func (s *Server) handleSession(clientMAC net.HardwareAddr, data []byte) {
 	session.UpdateActivity()
 	session.AddBytesIn(uint64(len(data)))
 
+	// The PPPoE payload must hold the 2-byte PPP protocol field and fit in the frame
+	if int(hdr.Length) < 2 || 6+int(hdr.Length) > len(data) {
+		return
+	}
+
 	// Parse PPP header
 	pppProto := binary.BigEndian.Uint16(data[6:8])
 	pppPayload := data[8 : 6+int(hdr.Length)]
